@@ -40,6 +40,8 @@ FOLLOWS_HELPERS = {"C14-R1": "the cursor-window analysis is interprocedural over
                              "new helpers like for old ones); slice, token-view and offset clauses are universal per method / follow field-filling helpers",
                    "C14-R4": "the entity table is read through a pure look-up helper, readDoctype's callee set is closed over family helpers, the I/O deny list covers every function of "
                              "xml.hpp; the dispatch clauses refuse when the '#' test or the branch on appendCharRef's result is not where they look",
+                   "C14-R5": "a digit-value helper of the byte is evaluated exactly over all 256 bytes, one-line pure helpers of the encoder are inlined before the exact "
+                             "evaluation; any other call that produces or receives the code point, and anything outside the pure fragment, is a refusal by the rule itself",
                    "C14-R6": "callback invocations are resolved through local lambdas / helpers that receive the callback, DOM attachments and entity decoding are followed into the "
                              "builder's helpers; handing the parser, the callbacks object or the node stack to another function is a refusal"}
 NOT_DECIDED = ["that the slices are the *right* slices (content faithfulness beyond bounds, snapshots and table checks)", "UTF-8 validity of the input", "line/column accounting",
@@ -673,6 +675,50 @@ def leq1(fm):
     return fm[0] >= 1
 
 
+def unfold_locals(f, n, depth=0):
+    """`n` with every unmodified local that has an initialiser replaced by that initialiser (up to 3 levels): what the expression says in terms
+    of members and parameters.  `elementDepth` declared `= _depth + 1` unfolds to `_depth + 1`.  The caller has to make sure the members read by
+    the initialiser are not written between the declaration and the use (members_stable)."""
+    from ..facts import _subst_vars
+    if n is None or depth > 3:
+        return n
+    table = {}
+    for x in walk(n):
+        if x.get("k") == "var" and x.get("parm") is None and x.get("d") is not None and x["d"] not in table:
+            _, v = decl_of(f, x["d"])
+            if v is not None and isinstance(v.get("init"), dict) and not writes_of(f, x["d"]) and v["init"].get("k") not in ("lambda", "ctor", "ilist"):
+                table[x["d"]] = v["init"]
+    if not table:
+        return n
+    return unfold_locals(f, _subst_vars(n, table), depth + 1)
+
+
+def depth_writes(f):
+    return [e for e in f.stmts() if (e.node.get("k") == "un" and field_of(strip_casts(e.node["v"])) == DEPTH and ("++" in e.node["op"] or "--" in e.node["op"])) or
+            (e.node.get("k") == "bin" and is_assign(e.node) and field_of(strip_casts(e.node["lhs"])) == DEPTH)]
+
+
+def depth_delta(f, e):
+    """+1 / -1 if the element raises / lowers _depth by one: `++_depth`, `_depth += 1`, or `_depth = X` where X (unmodified locals unfolded) is
+    `_depth + 1` and _depth is not written between the declaration of the locals X reads and this assignment; None for any other write"""
+    n = e.node
+    if n.get("k") == "un":
+        return 1 if "++" in n["op"] else -1
+    if n.get("op") in ("+=", "-=") and const_value(strip_casts(n["rhs"])) == 1:
+        return 1 if n["op"] == "+=" else -1
+    if n.get("op") != "=":
+        return None
+    for x in walk(n["rhs"]):
+        if x.get("k") == "var" and x.get("parm") is None:
+            de, v = decl_of(f, x.get("d"))
+            if de is None or search(f, de, lambda y: y in depth_writes(f) and y is not e, stop=lambda y: y is e, eh=False) is not None:
+                return None
+    fm = lin(unfold_locals(f, n["rhs"]))
+    if fm is not None and fm[1] == ("_depth",) and fm[0] in (1, -1):
+        return fm[0]
+    return None
+
+
 STACK = XP + "::_elementStack"
 DEPTH = XP + "::_depth"
 
@@ -764,14 +810,21 @@ def r2(ctx, r):
     prods = [e for e in start.stmts() if e.node.get("k") == "mcall" and last(e.node.get("callee", "")) == "produced"]
     flag = branched_bool(start)      # the self-closing flag: the one bool local of the function that is branched on (found by dataflow, not by its name)
     eb = [b for b in start.blocks.values() if b._raw_cond() is not None and is_var(b._raw_cond(), flag["d"])]
+    flag_sets = [e for e in start.stmts() if (assign_parts(e.node) and is_var(assign_parts(e.node)[0], flag["d"]))]
+    if flag_sets and len(eb) > 1:
+        raise AnalysisBroken("readStartOrEmptyTag: the self-closing flag `%s` is assigned and tested at %d branches — the tests cannot be assumed to agree" % (flag["n"], len(eb)))
+    # the flag is tested at one branch, or never written after its initialisation: all its tests agree, so the function is looked at once under
+    # `flag true` (every false edge of a flag test removed) and once under `flag false`
+    when_set = lambda b, si: not (b in eb and si == 1)
+    when_clear = lambda b, si: not (b in eb and si == 0)
     r.instance()
-    if r.expect(len(pushes) == 1 and len(prods) == 2 and len(eb) >= 1, start, None, "start tag shape", "readStartOrEmptyTag: expected one push, two produced() and a test of `%s`; found %d/%d/%d" % (flag["n"], len(pushes), len(prods), len(eb)),
-                okdesc="readStartOrEmptyTag: one push, two produced"):
+    if r.expect(len(pushes) == 1 and len(prods) >= 1 and len(eb) >= 1, start, None, "start tag shape", "readStartOrEmptyTag: expected one push, produced() and a test of `%s`; found %d/%d/%d" % (flag["n"], len(pushes), len(prods), len(eb)),
+                okdesc="readStartOrEmptyTag: one push, produced() behind the self-closing test"):
         push = pushes[0]
-        ebb = eb[-1] if len(eb) == 1 else [b for b in eb if dominated_by_edge(start, push, b, 1, eh=False)][0] if [b for b in eb if dominated_by_edge(start, push, b, 1, eh=False)] else eb[0]
+        ebb = ([b for b in eb if dominated_by_edge(start, push, b, 1, eh=False)] or eb)[0]
         r.instance()
-        r.expect(dominated_by_edge(start, push, ebb, 1, eh=False), start, push, "push for empty element", "a self-closing element is pushed on the open-element stack (its end tag never comes: the document is rejected, or a later mismatch accepted)",
-                 okdesc="push only when !empty")
+        r.expect(search(start, ("entry",), lambda x: x is push, edge_ok=when_set, eh=False) is None, start, push, "push for empty element", "a self-closing element is pushed on the open-element stack (its end tag never comes: the document is rejected, or a later mismatch accepted)",
+                 okdesc="push only when !%s" % flag["n"])
         pushed_name = show(push.node["args"][0]) if push.node.get("args") else ""
         snm = [v["n"] for e in start.stmts() if e.node.get("k") == "decl" for v in e.node["vars"] if v.get("init") is not None and "readName()" in show(v["init"])]
         r.instance()
@@ -780,12 +833,13 @@ def r2(ctx, r):
         r.expect(snm and (snm[0] in pushed_name or stored_elsewhere), start, push, "pushed name", "neither the value pushed on the open-element stack nor anything stored with it is the tag name just read", okdesc="the tag name just read is recorded with the push")
         for p in prods:
             r.instance()
-            on_empty = dominated_by_edge(start, p, ebb, 0, eh=False)
-            on_nonempty = dominated_by_edge(start, p, ebb, 1, eh=False)
-            ok = (on_empty and search(start, ("entry",), lambda x: x is p, stop=None, eh=False) is not None and not elem_dominates(start, push, p, eh=False)) or (on_nonempty and elem_dominates(start, push, p, eh=False))
+            # open element (flag false): produced() only behind exactly one push; self-closing (flag true): the push is unreachable (clause above)
+            reach_clear = search(start, ("entry",), lambda x: x is p, edge_ok=when_clear, eh=False) is not None
+            ok = (not reach_clear or search(start, ("entry",), lambda x: x is p, stop=lambda x: x is push, edge_ok=when_clear, eh=False) is None) and search(start, push, lambda x: x is push, eh=False) is None and \
+                (reach_clear or search(start, ("entry",), lambda x: x is p, edge_ok=when_set, eh=False) is not None)
             r.expect(ok, start, p, "start tag produced without push", "readStartOrEmptyTag reports a StartElement on a path that did not push it (or an EmptyElement after pushing)", okdesc="produced() consistent with push")
         # the empty flag is true only when '/' was seen
-        sets = [e for e in start.stmts() if (assign_parts(e.node) and is_var(assign_parts(e.node)[0], flag["d"]))]
+        sets = flag_sets
         decl = [flag]
         r.instance()
         slash_blocks = [b for b in start.blocks.values() if b.cond is not None and common.cmp_parts(b.cond) and common.cmp_parts(b.cond)[0] == "==" and const_value(common.cmp_parts(b.cond)[2]) == ord('/') and "peek()" in show(common.cmp_parts(b.cond)[1])]
@@ -799,8 +853,10 @@ def r2(ctx, r):
         r.expect(ok, start, None, "empty flag", "`%s` is not exactly 'the character after the attributes is /'" % flag["n"], okdesc="%s ⇔ '/' seen" % flag["n"])
     # depth paired with the stack: on every path to produced() the net change of _depth is +1 exactly when the element was pushed
     # (start tag) and -1 exactly with the pop (end tag); nothing else writes _depth
-    dw = [(f, e) for f in funcs for e in f.stmts() if (e.node.get("k") == "un" and field_of(strip_casts(e.node["v"])) == DEPTH and ("++" in e.node["op"] or "--" in e.node["op"])) or
-          (e.node.get("k") == "bin" and is_assign(e.node) and field_of(strip_casts(e.node["lhs"])) == DEPTH)]
+    dw = [(f, e) for f in funcs for e in depth_writes(f)]
+    for f, e in dw:
+        if f in (start, end) and depth_delta(f, e) is None:
+            raise AnalysisBroken("%s writes _depth with `%s`, which is not a change by one the rule can follow" % (last(f.name), show(e.node)[:60]))
     r.instance()
     bad = [(f, e) for f, e in dw if f not in (start, end) and f.kind != "ctor"]
     r.expect(not bad, bad[0][0] if bad else start, bad[0][1] if bad else None, "depth written elsewhere", "_depth is modified outside the start/end tag readers", okdesc="_depth written only by the tag readers (%d sites)" % len(dw))
@@ -812,8 +868,8 @@ def r2(ctx, r):
             if e.kind != "stmt":
                 return None
             n = e.node
-            if n.get("k") == "un" and field_of(strip_casts(n["v"])) == DEPTH and ("++" in n["op"] or "--" in n["op"]):
-                up = "++" in n["op"]
+            if e in depth_writes(f):
+                up = depth_delta(f, e) == 1
                 # net change relative to entry: start tag counts +1 as 'chg', a following -1 undoes it; end tag symmetric
                 if (up and f is start) or ((not up) and f is end):
                     return [("assign", "twice", Or(A("twice"), A("chg"))), ("set", "chg", True)]
@@ -857,21 +913,50 @@ def r2(ctx, r):
                  okdesc="%s() returns %s" % (last(g.name), "true" if want else "false"))
 
 
+def success_return(e):
+    """the return element reports success: `return true`, or (optional-returning reader) a std::optional constructed from a value — not from nullopt / nothing"""
+    v = strip_casts(e.node.get("v") or {})
+    if const_value(v) is not None:
+        return const_value(v) == 1
+    if v.get("k") == "ctor" and last(v.get("cls", "")) == "optional":
+        args = [a for a in v.get("args", []) if not a.get("def")]
+        return bool(args) and "nullopt" not in show(v)
+    return False
+
+
 def r3(ctx, r):
     fb = ctx.fb()
     start, name, text, qv, attrs, nxt, prod = (xp(ctx, n) for n in ("readStartOrEmptyTag", "readName", "readText", "readQuotedValue", "readAttributes", "next", "produced"))
     # depth
-    inc = [e for e in start.stmts() if e.node.get("k") == "un" and field_of(strip_casts(e.node["v"])) == DEPTH and "++" in e.node["op"]]
-    db = [b for b in start.blocks.values() if b.cond is not None and common.cmp_parts(b.cond) and "maxDepth" in show(b.cond) and "_depth" in show(b.cond)]
+    # every raise of _depth (`++_depth`, or `_depth = d` with d an unmodified local holding `_depth + 1`) lies behind the false edge of the limit test
+    # `_depth + 1 > maxDepth` / `_depth >= maxDepth`; the test may be spelled over such a local too (unfolded), provided _depth is not written between
+    # the local's declaration and the test
+    inc = [e for e in depth_writes(start) if depth_delta(start, e) == 1]
+    if any(depth_delta(start, e) is None for e in depth_writes(start)):
+        raise AnalysisBroken("readStartOrEmptyTag writes _depth in a way the rule cannot follow")
+    db = []
+    for b in start.blocks.values():
+        if b.cond is None or not common.cmp_parts(b.cond) or "maxDepth" not in show(b.cond):
+            continue
+        stable = True
+        for x in walk(b.cond):
+            if x.get("k") == "var" and x.get("parm") is None:
+                de, _ = decl_of(start, x.get("d"))
+                if de is not None and search(start, de, lambda y: y in depth_writes(start), stop=lambda y, b=b: y.block is b, eh=False) is not None:
+                    stable = False
+        u = unfold_locals(start, b.cond)
+        if stable and "_depth" in show(u):
+            db.append((b, u))
     r.instance()
     ok = False
-    if len(inc) == 1 and len(db) == 1:
-        op, l, rr = common.cmp_parts(db[0].cond)
+    if inc and len(db) == 1:
+        op, l, rr = common.cmp_parts(db[0][1])
         fl = lin(l)
         # `_depth + 1 > max` or `_depth >= max`
         strict = (op == ">" and fl is not None and fl[0] >= 1) or (op == ">=" and fl is not None and fl[0] >= 0)
-        ok = strict and "maxDepth" in show(rr) and dominated_by_edge(start, inc[0], db[0], 1, eh=False)
-    r.expect(ok, start, inc[0] if inc else None, "depth limit", "++_depth is reachable without passing the false edge of `_depth + 1 > maxDepth`", okdesc="maxDepth tested before ++_depth")
+        ok = strict and "maxDepth" in show(rr) and all(dominated_by_edge(start, e, db[0][0], 1, eh=False) for e in inc)
+    db = [b for b, _ in db]
+    r.expect(ok, start, inc[0] if inc else None, "depth limit", "_depth is raised on a path that does not pass the false edge of `_depth + 1 > maxDepth`", okdesc="maxDepth tested before _depth is raised")
     prods_ = [e for e in start.stmts() if e.node.get("k") == "mcall" and last(e.node.get("callee", "")) == "produced"]
     for e in prods_:
         r.instance()
@@ -890,7 +975,9 @@ def r3(ctx, r):
     r.expect(len(tb) == 1 and adv and all(dominated_by_edge(text, e, tb[0], 1, eh=False) and search(text, e, lambda x, e=e: x is e, stop=lambda x: x.block is tb[0], eh=False) is None for e in adv), text, adv[0] if adv else None, "text span limit",
              "readText advances without passing the maxTextSpan test in each iteration", okdesc="maxTextSpan tested per character")
     qb = [b for b in qv.blocks.values() if b.cond is not None and common.cmp_parts(b.cond) and "maxTextSpan" in show(b.cond)]
-    qrt = [e for e in common.returns(qv) if const_value(strip_casts(e.node.get("v") or {})) == 1]
+    qrt = [e for e in common.returns(qv) if success_return(e)]
+    if not qrt:
+        raise AnalysisBroken("readQuotedValue: no success return recognised (neither `return true` nor an engaged std::optional)")
     r.instance()
     r.expect(len(qb) == 1 and qrt and all(dominated_by_edge(qv, e, qb[0], 1, eh=False) for e in qrt), qv, None, "attribute value limit", "readQuotedValue succeeds without the maxTextSpan test", okdesc="attribute value length tested")
     # attributes per element
@@ -1225,11 +1312,16 @@ def body_suffix(f, n, depth=0):
     return None
 
 
-def case_value(n):
-    """('const', k) or ('cond', declaration id of the tested bool, k when true, k when false) of an integer expression; None otherwise"""
+def case_value(n, f=None, depth=0):
+    """('const', k) or ('cond', declaration id of the tested bool, k when true, k when false) of an integer expression; None otherwise.  With `f`, an
+    unmodified local that has an initialiser stands for that initialiser (`firstDigit` declared `= isHex ? 2 : 1`)."""
     n = strip_casts(n)
     if n is None:
         return None
+    if f is not None and depth < 3 and n.get("k") == "var" and n.get("parm") is None and const_value(n) is None and not writes_of(f, n.get("d")):
+        _, v = decl_of(f, n.get("d"))
+        if v is not None and isinstance(v.get("init"), dict):
+            return case_value(v["init"], f, depth + 1)
     if const_value(n) is not None:
         return ("const", const_value(n))
     if n.get("k") == "cond" and isinstance(n.get("t"), dict) and isinstance(n.get("f"), dict):
@@ -1240,11 +1332,11 @@ def case_value(n):
     return None
 
 
-def case_sum(nodes):
+def case_sum(nodes, f=None):
     """case_value of a sum of expressions (at most one of them conditional)"""
     tot, cond = 0, None
     for n in nodes:
-        cv = case_value(n)
+        cv = case_value(n, f)
         if cv is None or (cv[0] == "cond" and cond is not None):
             return None
         if cv[0] == "const":
@@ -1379,29 +1471,55 @@ def r5(ctx, r):
             return
         raise AnalysisBroken("appendCharRef: %s: start offset and radix are not selected by the same test" % what)
 
-    def digit_exact(e, ex, cv, radix):
-        """the digit expression `ex` (evaluated at element e) over the byte local `cv`: delimited by range tests on the byte, and on that
-        range every byte is a digit of the radix and the value is the digit's value — so a byte that is no digit cannot reach it"""
+    def digit_exact(e, ex, cv, radix, env=None, dvar=None, use=None):
+        """the digit expression `ex` (evaluated at element e) over the byte local `cv`.  The bytes that can reach the accumulator update are those allowed by
+        the range tests on the byte that dominate e and — when the value is held in the local `dvar` — by the tests on that local that dominate the update
+        `use` (`digit >= radix` → fail).  Every such byte must be a digit of the radix and the expression must yield its value: then a byte that is no digit
+        cannot be consumed.  The expression is arithmetic on the byte, or a call of a loop-free pure family function of the byte (evaluated exactly)."""
+        env = env or {}
         r.instance()
         if not mentions_d(ex, cv["d"]):
             r.fail(acr, e, "digit value: %s" % show(ex)[:20], "the digit value `%s` is not computed from the byte just read: a byte that is no digit is consumed with that value instead of failing the reference" % show(ex)[:60])
             return
         facts = [(c, t) for (c, t) in dominating_facts(acr, e) if mentions_d(c, cv["d"])]
         lo, hi = interval_of(facts, cv["n"])
-        if lo is None or hi is None:
+        dfacts = [(c, t) for (c, t) in dominating_facts(acr, use) if mentions_d(c, dvar["d"])] if dvar is not None and use is not None else []
+        if (lo is None or hi is None) and not dfacts:
             r.fail(acr, e, "digit range", "the digit expression `%s` is not delimited by range tests on `%s`: a byte that is no digit is consumed as one" % (show(ex), cv["n"]))
             return
-        free = sorted({x["n"] for x in walk(ex) if x.get("k") == "var" and x.get("d") != cv["d"]})
-        if free:
-            raise AnalysisBroken("digit expression `%s` reads %s besides the byte" % (show(ex)[:60], free))
-        try:
-            fn = compile_expr(ex, [cv["n"]])[0]
-        except NotPure as exn:
-            raise AnalysisBroken("digit expression not pure: %s" % exn)
+        lo, hi = (-128 if lo is None else lo), (127 if hi is None else hi)
+        exs = strip_casts(ex)
+        if exs.get("k") in ("call", "mcall") and (exs.get("callee") or "").startswith(XP + "::"):
+            gs = [g for g in ctx.fb().funcs(exs["callee"], XF) if g.ok and len(g.params) == 1]
+            if len(gs) != 1 or len(exs.get("args", [])) != 1 or not is_var(exs["args"][0], cv["d"]):
+                raise AnalysisBroken("digit value `%s`: not a one-argument family function of the byte" % show(ex)[:60])
+            try:
+                run_g = eval_loopfree(gs[0], gs[0].params[0]["n"], None, lambda n: None)
+            except NotPure as exn:
+                raise AnalysisBroken("digit helper %s is outside the loop-free pure fragment: %s" % (last(gs[0].name), exn))
+            fn = lambda c: run_g(c)[1]
+        else:
+            free = sorted({x["n"] for x in walk(ex) if x.get("k") == "var" and x.get("d") != cv["d"]})
+            if free:
+                raise AnalysisBroken("digit expression `%s` reads %s besides the byte" % (show(ex)[:60], free))
+            try:
+                fn = compile_expr(ex, [cv["n"]])[0]
+            except NotPure as exn:
+                raise AnalysisBroken("digit expression not pure: %s" % exn)
+        tests = []
+        for (c, t) in dfacts:
+            names = sorted({x["n"] for x in walk(c) if x.get("k") == "var"})
+            if any(nm != dvar["n"] and nm not in env for nm in names):
+                raise AnalysisBroken("test `%s` on the digit value reads locals the rule cannot evaluate" % show(c)[:60])
+            try:
+                tests.append((compile_expr(strip_casts(c), names)[0], names, t))
+            except NotPure as exn:
+                raise AnalysisBroken("test on the digit value not pure: %s" % exn)
         digits = "0123456789abcdefABCDEF" if radix == 16 else "0123456789"
-        bad = [c for c in range(lo, hi + 1) if not (0 <= c < 128 and chr(c) in digits and fn(c) == int(chr(c), 16))]
-        r.expect(not bad, acr, e, "digit value: %s" % show(ex)[:20], "for the byte %r the digit expression `%s` yields %s" % (chr(bad[0]) if bad and 0 <= bad[0] < 128 else (bad[0] if bad else ""), show(ex), fn(bad[0]) if bad else ""),
-                 okdesc="`%s` exact on '%s'…'%s'" % (show(ex)[:24], chr(lo), chr(hi)))
+        dom = [c for c in range(lo, hi + 1) if all(bool(tf(*[fn(c) if nm == dvar["n"] else env[nm] for nm in names])) == t for (tf, names, t) in tests)]
+        bad = [c for c in dom if not (0 <= c < 128 and chr(c) in digits and fn(c) == int(chr(c), 16))]
+        r.expect(not bad, acr, e, "digit value: %s" % show(ex)[:20], "for the byte %r the digit expression `%s` yields %s%s" % (chr(bad[0]) if bad and 0 <= bad[0] < 128 else (bad[0] if bad else ""), show(ex), fn(bad[0]) if bad else "",
+                 " and passes the tests in front of the radix-%d accumulator update" % radix if tests else ""), okdesc="`%s` exact on the %d bytes that reach the radix-%d update" % (show(ex)[:24], len(dom), radix))
 
     full_edges, loops_failed = set(), False
     # ---- form A: digit accumulation loops
@@ -1415,10 +1533,29 @@ def r5(ctx, r):
             fn = compile_expr(rhs, [cname] + others)[0]
         except NotPure as ex:
             raise AnalysisBroken("accumulator update not pure: %s" % ex)
-        zeros = [0] * len(others)
-        radix = (fn(1, *zeros) - fn(0, *zeros)) % (1 << w)
-        if radix not in (10, 16) or (fn(3, *zeros) - fn(0, *zeros)) % (1 << w) != 3 * radix:
-            raise AnalysisBroken("accumulator update `%s` is not `code * 10 + d` / `code * 16 + d`" % show(rhs)[:60])
+        # locals of the update that are constants or `flag ? a : b` (an unmodified `radix`): the update is judged once per value of the flag
+        case_vars = {}
+        for x in walk(rhs):
+            if x.get("k") == "var" and x.get("d") != cd and x.get("parm") is None and not writes_of(acr, x["d"]):
+                _, v_ = decl_of(acr, x["d"])
+                cvl = case_value(v_["init"]) if v_ is not None and isinstance(v_.get("init"), dict) else None
+                if cvl is not None and v_["init"].get("k") != "int" or (cvl is not None and "const" in (v_.get("t") or "")):
+                    case_vars[x["n"]] = cvl
+        flags = {c[1] for c in case_vars.values() if c[0] == "cond"}
+        if len(flags) > 1:
+            raise AnalysisBroken("accumulator update `%s` depends on several flags" % show(rhs)[:60])
+        cases = []           # (flag truth or None, {local: value})
+        for truth in ((True, False) if flags else (None,)):
+            cases.append((truth, {nm: (c[1] if c[0] == "const" else (c[2] if truth else c[3])) for nm, c in case_vars.items()}))
+        radices = []
+        for truth, env_ in cases:
+            vals = [env_.get(nm, 0) for nm in others]
+            rx = (fn(1, *vals) - fn(0, *vals)) % (1 << w)
+            if rx not in (10, 16) or (fn(3, *vals) - fn(0, *vals)) % (1 << w) != 3 * rx:
+                raise AnalysisBroken("accumulator update `%s` is not `code * 10 + d` / `code * 16 + d`" % show(rhs)[:60])
+            radices.append(rx)
+        radix = radices[0]
+        base_case = ("cond", list(flags)[0], radices[0], radices[1]) if flags else ("const", radix)
         # (a) the accumulator cannot wrap: an in-loop magnitude test on the code point, failing edge leaves with false
         guards = [b for b in acr.blocks.values() if b.cond is not None and common.cmp_oriented(b.cond, lambda x: const_value(x) is not None) and is_var(common.cmp_oriented(b.cond, lambda x: const_value(x) is not None)[1], cd)
                   and common.cmp_oriented(b.cond, lambda x: const_value(x) is not None)[0] in (">", ">=")]
@@ -1442,16 +1579,37 @@ def r5(ctx, r):
         r.expect(ok, acr, e, "accumulator wrap: %s" % show(rhs)[:24], "the character-reference accumulator `%s = %s` can wrap around 2^%d (%s): &#4294967361; decodes to 'A' instead of being rejected" % (cname, show(rhs), min(w, pw), why),
                  okdesc="accumulator `%s` range-tested inside the loop" % show(rhs)[:24])
         # (b) the loop: `for (idx = k; idx < S.size(); ++idx)` over a suffix S of the body, one byte per iteration
-        heads = [b for b in acr.blocks.values() if b.term and b.term.get("k") in ("ForStmt", "WhileStmt") and b.cond is not None and len(b.succs) == 2 and None not in b.succs
+        heads = [b for b in acr.blocks.values() if b.term and b.term.get("k") in ("ForStmt", "WhileStmt", "CXXForRangeStmt") and b.cond is not None and len(b.succs) == 2 and None not in b.succs
                  and dominated_by_edge(acr, e, b, 0, eh=False) and search(acr, e, lambda x, b=b: x.block is b, eh=False) is not None]
         if len(heads) != 1:
             raise AnalysisBroken("appendCharRef: the accumulator update `%s` lies in %d loops (expected one loop over the reference body)" % (show(rhs)[:40], len(heads)))
         h = heads[0]
         co = common.cmp_oriented(h.cond, lambda x: strip_casts(x).get("k") == "mcall" and last(strip_casts(x).get("callee", "")) in ("size", "length") and body_suffix(acr, strip_casts(x).get("obj")) is not None)
-        if not co or co[0] != "<" or strip_casts(co[1]).get("k") != "var":
-            raise AnalysisBroken("appendCharRef: digit loop condition `%s` is not `index < body.size()`" % show(h.cond)[:60])
-        idx, sview = strip_casts(co[1]), strip_views(strip_casts(co[2])["obj"])
-        _, iv = decl_of(acr, idx["d"])
+        pointer_form = False
+        if co and co[0] == "<" and strip_casts(co[1]).get("k") == "var":
+            idx, sview = strip_casts(co[1]), strip_views(strip_casts(co[2])["obj"])
+            _, iv = decl_of(acr, idx["d"])
+            start_offs = [iv.get("init") or {}] if iv is not None else None
+        else:
+            # pointer form (what a range-for over a view desugars to): `p != end` / `p < end` with p a local pointer starting at S.begin() [+ k] and
+            # end == S.end(); `!=` cannot step over the end only when p starts at the very beginning of S
+            cp_ = common.cmp_parts(strip_casts(h.cond))
+            idx = sview = iv = start_offs = None
+            for a_, b_ in (((cp_[1], cp_[2]), (cp_[2], cp_[1])) if cp_ and cp_[0] in ("!=", "<", ">") else ()):
+                a_ = strip_casts(a_)
+                if a_.get("k") != "var" or a_.get("parm") is not None:
+                    continue
+                _, iv_ = decl_of(acr, a_.get("d"))
+                pi_, pe_ = (ptr_into(acr, iv_["init"]) if iv_ is not None and isinstance(iv_.get("init"), dict) else None), ptr_into(acr, b_)
+                if pi_ is None or pe_ is None or pi_[0].get("d") != pe_[0].get("d") or len(pe_[1]) != 1 or not is_size_of(pe_[1][0], pi_[0]["d"]) or body_suffix(acr, pi_[0]) is None:
+                    continue
+                if cp_[0] == "!=" and pi_[1]:
+                    continue
+                if (cp_[0] == "<" and a_ is not strip_casts(cp_[1])) or (cp_[0] == ">" and a_ is not strip_casts(cp_[2])):
+                    continue
+                idx, sview, iv, start_offs, pointer_form = a_, pi_[0], iv_, pi_[1], True
+            if idx is None:
+                raise AnalysisBroken("appendCharRef: digit loop condition `%s` is neither `index < body.size()` nor `p != body.end()` over a suffix of the reference body" % show(h.cond)[:60])
         incs = writes_of(acr, idx["d"])
         if iv is None or not incs or any(not (x.node.get("k") == "un" and "++" in x.node.get("op", "")) for x in incs):
             raise AnalysisBroken("appendCharRef: the digit loop index `%s` is not a local advanced only by ++" % idx["n"])
@@ -1459,15 +1617,17 @@ def r5(ctx, r):
         once = search(acr, ("block", h.succs[0]), in_h, stop=lambda x: x in incs, eh=False) is None and all(search(acr, i_, lambda x: x in incs, stop=in_h, eh=False) is None for i_ in incs)
         if not once:
             raise AnalysisBroken("appendCharRef: the digit loop does not advance `%s` exactly once per iteration" % idx["n"])
-        what = "the %s digit loop" % ("hexadecimal" if radix == 16 else "decimal")
-        radix_relation(e, case_sum(body_suffix(acr, sview) + [iv.get("init") or {}]), ("const", radix), what)
-        # (c) the byte of this iteration: a local initialised `S[idx]`, read before the index moves
+        what = "the digit loop" if flags else "the %s digit loop" % ("hexadecimal" if radix == 16 else "decimal")
+        radix_relation(e, case_sum(body_suffix(acr, sview) + start_offs, acr), base_case, what)
+        # (c) the byte of this iteration: a local initialised `S[idx]` / `*p`, read before the index moves
         cdecls = []
         for x in acr.stmts():
             if x.node.get("k") == "decl" and elem_dominates(acr, x, e, eh=False) and dominated_by_edge(acr, x, h, 0, eh=False):
                 for v in x.node["vars"]:
                     i = strip_casts(v.get("init") or {})
-                    if i.get("k") == "opcall" and i.get("op") == "[]" and is_var(strip_views(i["args"][0]), sview["d"]) and is_var(i["args"][1], idx["d"]):
+                    if not pointer_form and i.get("k") == "opcall" and i.get("op") == "[]" and is_var(strip_views(i["args"][0]), sview["d"]) and is_var(i["args"][1], idx["d"]):
+                        cdecls.append((x, v))
+                    elif pointer_form and i.get("k") == "un" and i.get("op") == "*" and is_var(i["v"], idx["d"]):
                         cdecls.append((x, v))
         if len(cdecls) != 1:
             raise AnalysisBroken("appendCharRef: %s does not hold the byte `%s[%s]` in exactly one local (%d found)" % (what, sview["n"], idx["n"], len(cdecls)))
@@ -1500,20 +1660,28 @@ def r5(ctx, r):
             if const_value(p) is not None:
                 continue
             ps = strip_casts(p)
-            if mentions_d(p, cv["d"]):
-                nd += 1
-                digit_exact(acr.elem_for(p) or e, p, cv, radix)
-            elif ps.get("k") == "var" and ps.get("parm") is None:
-                vw = [x for x in writes_of(acr, ps["d"]) if dominated_by_edge(acr, x, h, 0, eh=False)]
-                for x in vw:
+            if ps.get("k") == "var" and ps["n"] in case_vars:
+                continue        # `radix`: fixed per case
+            for (truth, env_), rx in zip(cases, radices):
+                if mentions_d(p, cv["d"]):
                     nd += 1
-                    digit_exact(x, assign_parts(x.node)[1] if assign_parts(x.node) else x.node, cv, radix)
-                r.instance()
-                wv = search(acr, cdecl, lambda x: x is e, stop=lambda x: x in vw, eh=False)
-                r.expect(wv is None, acr, e, "digit value unset", "%s reaches `%s = %s` on a path where `%s` was not computed from the byte just read (its initial value is used): a byte that is no digit is consumed instead of "
-                         "failing the reference" % (what, cname, show(rhs), ps["n"]), okdesc="`%s` assigned from the byte on every path to the update" % ps["n"], witness=witness_str(acr, wv) if wv else None)
-            else:
-                raise AnalysisBroken("accumulator update reads `%s`, which is neither the byte nor a local digit value" % show(p)[:50])
+                    digit_exact(acr.elem_for(p) or e, p, cv, rx, env_)
+                elif ps.get("k") == "var" and ps.get("parm") is None:
+                    vw = [x for x in writes_of(acr, ps["d"]) if dominated_by_edge(acr, x, h, 0, eh=False)]
+                    dde, ddv = decl_of(acr, ps["d"])
+                    by_init = dde is not None and isinstance(ddv.get("init"), dict) and mentions_d(ddv["init"], cv["d"]) and dominated_by_edge(acr, dde, h, 0, eh=False)
+                    if by_init:
+                        nd += 1
+                        digit_exact(dde, ddv["init"], cv, rx, env_, dvar=ddv, use=e)
+                    for x in vw:
+                        nd += 1
+                        digit_exact(x, assign_parts(x.node)[1] if assign_parts(x.node) else x.node, cv, rx, env_, dvar=ddv, use=e)
+                    r.instance()
+                    wv = None if by_init else search(acr, cdecl, lambda x: x is e, stop=lambda x: x in vw, eh=False)
+                    r.expect(wv is None, acr, e, "digit value unset", "%s reaches `%s = %s` on a path where `%s` was not computed from the byte just read (its initial value is used): a byte that is no digit is consumed instead of "
+                             "failing the reference" % (what, cname, show(rhs), ps["n"]), okdesc="`%s` assigned from the byte on every path to the update" % ps["n"], witness=witness_str(acr, wv) if wv else None)
+                else:
+                    raise AnalysisBroken("accumulator update reads `%s`, which is neither the byte nor a local digit value" % show(p)[:50])
         if nd == 0:
             raise AnalysisBroken("appendCharRef: no digit-value expression found for `%s`" % show(rhs)[:40])
     # ---- form B: std::from_chars — strict by itself (no sign, no prefix, no white space), but it STOPS at the first byte that is no digit:
@@ -1528,7 +1696,7 @@ def r5(ctx, r):
         if first is None or lastp is None or first[0].get("d") != lastp[0].get("d") or body_suffix(acr, first[0]) is None or len(lastp[1]) != 1 or not is_size_of(lastp[1][0], first[0]["d"]):
             raise AnalysisBroken("appendCharRef: std::from_chars(%s, %s, …) is not called on [S.data() + k, S.data() + S.size()) of a suffix S of the reference body" % (show(n["args"][0])[:40], show(n["args"][1])[:40]))
         bargs = [a for a in n["args"][3:] if not a.get("def")]
-        radix_relation(e, case_sum(body_suffix(acr, first[0]) + first[1]), case_value(bargs[0]) if bargs else ("const", 10), "std::from_chars")
+        radix_relation(e, case_sum(body_suffix(acr, first[0]) + first[1], acr), case_value(bargs[0], acr) if bargs else ("const", 10), "std::from_chars")
         r.instance()
         r.expect(w <= pw, acr, e, "code point narrowed", "std::from_chars parses into a %d-bit `%s` that is narrowed to encodeUtf8's %d-bit parameter: values beyond 2^%d wrap instead of being rejected" % (w, cname, pw, pw),
                  okdesc="from_chars target as wide as the encoder's parameter (overflow is an error code)")
@@ -1583,9 +1751,9 @@ def r5(ctx, r):
 
     def is_app(n):
         if n.get("k") == "mcall" and last(n.get("callee", "")) == "push_back" and is_var(n.get("obj"), od):
-            return n["args"][0]
+            return inline_pure(ctx.fb(), n["args"][0])
         if n.get("k") == "opcall" and n.get("op") == "+=" and is_var(n["args"][0], od):
-            return n["args"][1]
+            return inline_pure(ctx.fb(), n["args"][1])
         return None
     cpp = [p for p in enc.params if p is not outp[0]][0]
     try:
@@ -1611,6 +1779,25 @@ def r5(ctx, r):
     # call's value itself (`return encodeUtf8(code, out);`, possibly as a conjunct)
     r.instance()
     r.expect(all(verdict_propagated(acr, a, enc_call) for a in accepts), acr, enc_call, "encoder verdict dropped", "appendCharRef ignores a failing encodeUtf8", okdesc="encoder failure → appendCharRef fails")
+
+
+def inline_pure(fb, n, depth=0):
+    """`n` with every call of a function of xml.hpp whose whole body is `return <expression>;` replaced by that expression over the call's arguments
+    (`continuationByte(cp, 6)` → `(char)(0x80 | cp >> 6 & 0x3F)`): the exact evaluation then sees plain arithmetic.  Other calls are left alone (and refused
+    by the evaluator)."""
+    from ..facts import _subst_vars
+    if not isinstance(n, dict) or depth > 3:
+        return n
+    if n.get("k") in ("call", "mcall") and n.get("callee") in fb.by_name:
+        gs = [g for g in fb.funcs(n["callee"], XF) if g.ok and len(g.params) == len(n.get("args", []))]
+        roots = [e for e in gs[0].stmts() if "root" in e.raw] if len(gs) == 1 else []
+        if len(roots) == 1 and roots[0].node.get("k") == "ret" and isinstance(roots[0].node.get("v"), dict):
+            table = {p_["d"]: inline_pure(fb, a, depth + 1) for p_, a in zip(gs[0].params, n["args"])}
+            return inline_pure(fb, _subst_vars(roots[0].node["v"], table), depth + 1)
+    out = {}
+    for k, v in n.items():
+        out[k] = inline_pure(fb, v, depth) if isinstance(v, dict) else ([inline_pure(fb, y, depth) if isinstance(y, dict) else y for y in v] if isinstance(v, list) else v)
+    return out
 
 
 def verdict_propagated(f, ret, call):
